@@ -1,7 +1,7 @@
 //! DataInput / DataOutput primitives over every back end: slice, Vec, std::io, file, mmap,
 //! and the stream wrappers used as std::io back ends; MemoryMappedInput/Output specifics.
 
-use crate::{bad, blob, ensure, fam, grid_u64, must, ref_leb, text, TmpFile, BLOB_LENS, R};
+use crate::{bad, blob, ensure, fam, grid_u64, must, ref_leb, text, TmpFile, BIG_BLOB_LENS_QUICK, BIG_BLOB_LENS_THOROUGH, BLOB_LENS, R};
 use serde::{Deserialize, Serialize};
 use std::fs::File;
 use std::io::Cursor;
@@ -82,7 +82,7 @@ const INS: &[&str] = &[
     "reader-zerocopy[8]", "reader-mmapzc",
 ];
 
-fn single_items() -> Vec<Item> {
+fn single_items(tier: Tier) -> Vec<Item> {
     let mut v = Vec::new();
     for x in [0u8, 1, 0x7F, 0x80, 0xFF] {
         v.push(Item::U8(x));
@@ -114,6 +114,13 @@ fn single_items() -> Vec<Item> {
     for n in [0usize, 1, 8192, 8193] {
         v.push(Item::Skip(n));
     }
+    let big: &[usize] = if tier == Tier::Quick { &BIG_BLOB_LENS_QUICK } else { &BIG_BLOB_LENS_THOROUGH };
+    for &n in big {
+        v.push(Item::Bytes(n, 1));
+        v.push(Item::Str(n, 1));
+        v.push(Item::Raw(n, 2));
+        v.push(Item::RawStr(n, 1));
+    }
     v
 }
 
@@ -135,7 +142,7 @@ fn pair_items() -> Vec<Item> {
 }
 
 fn gen_io(tier: Tier, f: &mut dyn FnMut(IoCase) -> bool) {
-    let singles = single_items();
+    let singles = single_items(tier);
     let pairs = pair_items();
     for out in OUTS {
         for inp in INS {
@@ -157,6 +164,14 @@ fn gen_io(tier: Tier, f: &mut dyn FnMut(IoCase) -> bool) {
             for a in &pairs {
                 for b in &pairs {
                     if !f(IoCase { out: out.to_string(), inp: inp.to_string(), items: vec![a.clone(), b.clone()] }) {
+                        return;
+                    }
+                }
+            }
+            // a long value FOLLOWED by more data (a reader that takes too much eats the next value)
+            for n in [65537usize, 70000] {
+                for it in [Item::Bytes(n, 1), Item::Str(n, 1)] {
+                    if !f(IoCase { out: out.to_string(), inp: inp.to_string(), items: vec![it, Item::U32(0x0403_0201), Item::Var(300)] }) {
                         return;
                     }
                 }
